@@ -124,7 +124,11 @@ func RotateNodeCredentials(
 
 	// We can use the same request as it is signed/valid. This will be encrypted
 	// against the _new_ keys.
-	fetchResp, err := registration.FetchNodeCredentials(ctx, storage, fetchRequest, opt...)
+	//
+	// The state is passed along here as well: a fetch request that carries
+	// (re-)wrapped registration information is authorized again by the fetch,
+	// and that must not drop the state carried over from the current record.
+	fetchResp, err := registration.FetchNodeCredentials(ctx, storage, fetchRequest, append(opt, nodeenrollment.WithState(currentNodeInfo.State))...)
 	if err != nil {
 		err := fmt.Errorf("error getting new fetch credentials response: %w", err)
 		opts.WithLogger.Error(err.Error(), "op", op)
